@@ -586,9 +586,9 @@ class pdb2sql(pdb2sql_base):
                 print('      : These conditions are:')
                 ntot = 0
                 for k, v in kwargs.items():
-                    print('      : --> %10s : %d values' %
-                          (k, len(v)))
-                    ntot += len(v)
+                    nv = len(v) if isinstance(v, list) else 1
+                    print('      : --> %10s : %d values' % (k, nv))
+                    ntot += nv
                 print('      : --> %10s : %d values' %
                       ('Total', ntot))
                 print(
